@@ -74,12 +74,16 @@ class HttpTransport(Transport):
         url = self.__get_request_url_for_urllib(request)
         msg = request.message
         headers = request.headers
-        if 'Content-Encoding' in headers:
-            encoding = headers['Content-Encoding']
-            if encoding == 'gzip':
-                msg = gzip.compress(msg)
-            elif encoding == 'deflate':
-                msg = zlib.compress(msg)
+        # HTTP header names and content codings are case-insensitive; of
+        # several spellings of the name urllib sends the last one.
+        encoding = None
+        for name, value in headers.items():
+            if name.lower() == 'content-encoding':
+                encoding = value.lower()
+        if encoding == 'gzip':
+            msg = gzip.compress(msg)
+        elif encoding == 'deflate':
+            msg = zlib.compress(msg)
         try:
             u2request = urllib.request.Request(url, msg, headers)
             self.addcookies(u2request)
@@ -93,7 +97,7 @@ class HttpTransport(Transport):
                 headers = headers.dict
             message = fp.read()
             if 'Content-Encoding' in headers:
-                encoding = headers['Content-Encoding']
+                encoding = headers['Content-Encoding'].lower()
                 if encoding == 'gzip':
                     message = gzip.decompress(message)
                 elif encoding == 'deflate':
